@@ -4,7 +4,7 @@ EXTENDS C14_Exact
 ShapesQ == << << <<"a">>, <<"a", "b">>, <<"b">> >>,
               << <<"a">>, <<"a">>, <<"a", "b">> >> >>
 ShapesT == ShapesQ \o << << <<"a">>, <<"a">>, <<"a", "b">>, <<"b">> >>,
-                         << <<"a", "b", "c">>, <<"a">>, <<"b", "d">>, <<"d">> >> >>
+                         << <<"a", "b", "c">>, <<"a">>, <<"b">> >> >>
 ShapesS == << << <<"a">>, <<"a", "b">>, <<"b">> >> >>
 ValsQ == {1, 2}
 ValsT == {-1, 1, 2}
